@@ -1,7 +1,7 @@
 SPECIFICATION Spec
 CONSTANTS
   MaxPaths = 2
-  MaxHist = 3
+  MaxHist = 2
   Deviations = {}
 INVARIANTS ResultDependsOnQueryOnly StoredTreeUntouched
 CHECK_DEADLOCK FALSE
